@@ -79,14 +79,14 @@ impl Prune for IntLinEq {
             let target_max = self.constant.saturating_sub(min_other);
             
             let (new_min, new_max) = if coeff > 0 {
-                // x_i ∈ [target_min / coeff, target_max / coeff]
-                let min_val = target_min.div_euclid(coeff);
-                let max_val = target_max.div_euclid(coeff);
+                // x_i ∈ [ceil(target_min / coeff), floor(target_max / coeff)]
+                let min_val = div_ceil_i32(target_min, coeff);
+                let max_val = div_floor_i32(target_max, coeff);
                 (min_val, max_val)
             } else {
                 // Negative coefficient: flip the bounds
-                let min_val = target_max.div_euclid(coeff);
-                let max_val = target_min.div_euclid(coeff);
+                let min_val = div_ceil_i32(target_max, coeff);
+                let max_val = div_floor_i32(target_min, coeff);
                 (min_val, max_val)
             };
             
@@ -1015,6 +1015,24 @@ fn compute_fixed_sum(coefficients: &[i32], variables: &[VarId], ctx: &Context) -
     Some(sum)
 }
 
+/// Floor of the exact quotient `a / b` (`b != 0`), saturated to the `i32` range.
+fn div_floor_i32(a: i32, b: i32) -> i32 {
+    let (a, b) = (a as i64, b as i64);
+    let q = a.div_euclid(b);
+    let r = a.rem_euclid(b);
+    let f = if b < 0 && r != 0 { q - 1 } else { q };
+    f.clamp(i32::MIN as i64, i32::MAX as i64) as i32
+}
+
+/// Ceiling of the exact quotient `a / b` (`b != 0`), saturated to the `i32` range.
+fn div_ceil_i32(a: i32, b: i32) -> i32 {
+    let (a, b) = (a as i64, b as i64);
+    let q = a.div_euclid(b);
+    let r = a.rem_euclid(b);
+    let c = if b > 0 && r != 0 { q + 1 } else { q };
+    c.clamp(i32::MIN as i64, i32::MAX as i64) as i32
+}
+
 /// Helper to apply int_lin_eq propagation (extracted for reuse)
 fn prune_int_lin_eq(coefficients: &[i32], variables: &[VarId], constant: i32, ctx: &mut Context) -> Option<()> {
     for i in 0..variables.len() {
@@ -1058,12 +1076,12 @@ fn prune_int_lin_eq(coefficients: &[i32], variables: &[VarId], constant: i32, ct
         let target_max = constant.saturating_sub(min_other);
         
         let (new_min, new_max) = if coeff > 0 {
-            let min_val = target_min.div_euclid(coeff);
-            let max_val = target_max.div_euclid(coeff);
+            let min_val = div_ceil_i32(target_min, coeff);
+            let max_val = div_floor_i32(target_max, coeff);
             (min_val, max_val)
         } else {
-            let min_val = target_max.div_euclid(coeff);
-            let max_val = target_min.div_euclid(coeff);
+            let min_val = div_ceil_i32(target_max, coeff);
+            let max_val = div_floor_i32(target_min, coeff);
             (min_val, max_val)
         };
         
